@@ -84,7 +84,10 @@ OnEnd(s, e) ==
   IN [st |-> [s EXCEPT !.drift = @ + dr],
       cl |-> IF ErrInjected /\ \E i \in DOMAIN Ev : Ev[i].e = "resp" /\ Ev[i].es # 0
              THEN \* C08: a walk-style operation propagates the agent's error (documented exception: noSuchName ends the walk)
-                  << <<"error_not_propagated", IF Sc.err.es = 2 THEN e.outcome \in {"done", "NoSuchOID"} ELSE e.outcome = ErrClass(Sc.err.es)>> >>
+                  IF Has(Sc.err, "iddelta") /\ Sc.err.iddelta # 0
+                  THEN \* C07: the error response carries another request-id - it must not end (or fail) the walk as if it were the answer
+                       << <<"wrong_id_error_ends_walk", e.outcome # "done">>, <<"wrong_id_other_exception", e.outcome = "InvalidResponseId">> >>
+                  ELSE << <<"error_not_propagated", IF Sc.err.es = 2 THEN e.outcome \in {"done", "NoSuchOID"} ELSE e.outcome = ErrClass(Sc.err.es)>> >>
              ELSE IF ~IsFaulty
              THEN << <<"request_budget_exceeded", e.outcome # "BUDGET">>,
                      <<"unexpected_exception", e.outcome = "done">>,
